@@ -67,7 +67,7 @@ def pop_program_rows(F):
             hit_rows.append(_sx.render(_sx.deep(st_, r_)))
     RUNP = r"run_raw\(Program::bytecode\(get_program\([^()]*\)\.Some\.0\), 1\)"
     okp = [r_ for r_ in hit_rows if re.match(r"^Result::map\(%s, closure#\d+\)$" % RUNP, r_) or re.match(r"^Result::Ok\((?:\w+::)*\w+\(%s\.Ok\.0\)\)$" % RUNP, r_)
-           or re.match(r"^Result::Err\(%s\.Err\.0\)$" % RUNP, r_) or re.match(r"^%s$" % RUNP, r_)
+           or re.match(r"^Result::Err\(%s\.Err\.0\)$" % RUNP, r_) or re.match(r"^%s$" % RUNP, r_) or re.match(r"^Result::Err\{\?%s\}$" % RUNP, r_)
            # a guard of the interpreter that refuses to evaluate the program at all (cycle detection): it is asked with the NAME, before run_raw,
            # and its failure is returned as it is (it cannot be of the absent class: C08 R08.2 freezes who may construct that)
            or (re.match(r"^Result::Err\(Interpreter::\w+\(self\.1, .*\)\.Err\.0\)$", r_) and "run_raw(" not in r_)]
